@@ -64,6 +64,8 @@ def make_interp(P, elem=None, hooks=True, assumptions=None):
     ALL_INTERPS.append(I)
     from . import pyparsingmodel
     pyparsingmodel.install(I)
+    from . import numpymodel
+    numpymodel.install(I)
     I.assumption_fns.append(species_nonempty)
     I.assumption_fns.append(inputs_callable)
     if hooks:
